@@ -286,7 +286,23 @@ def snapshot(g):
         t_hotend=fnum(s.target_hotend_temperature), t_bed=fnum(s.target_bed_temperature),
         t_chamber=fnum(s.target_chamber_temperature),
         params=[fnum(g.get_parameter(k)) for k in SNAP_LETTERS],
-        sparams=[fnum(s.get_parameter(k)) for k in SNAP_LETTERS])
+        sparams=[fnum(s.get_parameter(k)) for k in SNAP_LETTERS],
+        bounds=[_bound_repr(s.get_bounds(name)) for name in BNAME])
+
+
+def _bound_repr(b):
+    """the user bounds of one property as plain data (None when not set)"""
+    if b is None:
+        return None
+    out = []
+    for v in b:
+        if v is None:
+            out.append(None)
+        elif hasattr(v, "x"):
+            out.append([fnum(v.x), fnum(v.y), fnum(v.z)])
+        else:
+            out.append(fnum(v))
+    return None if all(v is None for v in out) else out
 
 
 def make_hook(h, calls):
